@@ -265,6 +265,17 @@ fn defined_lengths(t: &mut Tally) {
         ("encapsulated pixel data followed by an undefined-length sequence whose defined-length item holds a defined-length sequence", [
             vec![0xE0, 0x7F, 0x10, 0x00, b'O', b'B', 0, 0, 0xFF, 0xFF, 0xFF, 0xFF, 0xFE, 0xFF, 0x00, 0xE0, 0, 0, 0, 0, 0xFE, 0xFF, 0x00, 0xE0, 2, 0, 0, 0, 7, 8, 0xFE, 0xFF, 0xDD, 0xE0, 0, 0, 0, 0],
             sq_undefined((0xFFFA, 0xFFFA), &[item_defined(&[leaf2.clone(), el((0x0008, 0x1140), b"SQ", &item_defined(&leaf))].concat())])].concat()),
+        ("a defined-length item that follows an item ending in encapsulated pixel data and holds a defined-length sequence", vec![
+            0x88, 0x00, 0x00, 0x02, b'S', b'Q', 0, 0, 86, 0, 0, 0,
+              0xFE, 0xFF, 0x00, 0xE0, 38, 0, 0, 0,
+                0xE0, 0x7F, 0x10, 0x00, b'O', b'B', 0, 0, 0xFF, 0xFF, 0xFF, 0xFF,
+                  0xFE, 0xFF, 0x00, 0xE0, 0, 0, 0, 0,
+                  0xFE, 0xFF, 0x00, 0xE0, 2, 0, 0, 0, 0x01, 0x02,
+                  0xFE, 0xFF, 0xDD, 0xE0, 0, 0, 0, 0,
+              0xFE, 0xFF, 0x00, 0xE0, 32, 0, 0, 0,
+                0x08, 0x00, 0x40, 0x11, b'S', b'Q', 0, 0, 20, 0, 0, 0,
+                  0xFE, 0xFF, 0x00, 0xE0, 12, 0, 0, 0,
+                    0x08, 0x00, 0x50, 0x11, b'U', b'I', 4, 0, b'1', b'.', b'2', 0]),
         ("two nested defined-length containers ending at the same offset, last in the stream", el((0x0008, 0x1115), b"SQ", &item_defined(&el((0x0008, 0x1140), b"SQ", &item_defined(&leaf))))),
     ];
     let ts = entries::EXPLICIT_VR_LITTLE_ENDIAN.erased();
@@ -380,6 +391,22 @@ fn main() {
             let mut again = Vec::new();
             if back.write_dataset_with_ts(&mut again, ts).is_err() || (layout.is_some() && again != bytes) {
                 t.fail(format!("{}: writing the object read back gives different bytes ({} vs {})", label, again.len(), bytes.len()));
+            }
+            // the variants of the writing call that take writer options / a character set: the same transfer syntax, so the stream must
+            // read back with it to an equal object (for the deflated syntax: really deflated, not plain bytes)
+            for variant in 0..2 {
+                t.cases += 1;
+                let mut out = Vec::new();
+                let w = if variant == 0 { obj.write_dataset_with_ts_options(&mut out, ts, dicom_parser::dataset::write::DataSetWriterOptions::default()).map_err(|e| e.to_string()) }
+                        else { obj.write_dataset_with_ts_cs_options(&mut out, ts, dicom_encoding::text::SpecificCharacterSet::default(), dicom_parser::dataset::write::DataSetWriterOptions::default()).map_err(|e| e.to_string()) };
+                let vname = ["write_dataset_with_ts_options", "write_dataset_with_ts_cs_options"][variant];
+                match w {
+                    Err(e) => t.fail(format!("{}: {} failed: {}", label, vname, e)),
+                    Ok(()) => match InMemDicomObject::read_dataset_with_ts(&out[..], ts) {
+                        Ok(b2) => if let Some(diff) = differs(obj, &b2, *tname == "Implicit VR LE") { t.fail(format!("{}: written with {}, the object read back differs: {}", label, vname, diff)); },
+                        Err(e) => t.fail(format!("{}: written with {} ({} bytes: {:02X?}...), the stream does not read back with the same transfer syntax: {}", label, vname, out.len(), &out[..out.len().min(12)], e)),
+                    },
+                }
             }
         }
     }
